@@ -547,4 +547,57 @@ theorem unEscapeB_u_hex4 (w e cp : Nat) (up : Bool) (s pend st : List Nat) (n : 
   rw [hv] at this
   simpa using this
 
+/-! ### `HexStringToNumber` for any `Number_T` -/
+
+theorem hexLoopW_eq_hexLoop (c : List Nat) : ∀ n off num, hexLoopW 4294967296 c n off num = hexLoop c n off num := by
+  intro n
+  induction n with
+  | zero => intros; rfl
+  | succ n ih =>
+    intro off num
+    simp only [hexLoopW, hexLoop]
+    cases c[off]? with
+    | none => rfl
+    | some d =>
+      simp only []
+      cases hexVal? d with
+      | none => rfl
+      | some v => simp only []; exact ih _ _
+
+theorem hexStepW (k num v : Nat) (hn : num * 16 < 2 ^ k) (hv : v < 16) :
+    ((num <<< 4) % 2 ^ k) ||| v = num * 16 + v := by
+  have h1 : num <<< 4 = 2 ^ 4 * num := by rw [Nat.shiftLeft_eq, Nat.mul_comm]
+  rw [h1, Nat.mod_eq_of_lt (by omega), ← Nat.two_pow_add_eq_or_of_lt (by simpa using hv) num]
+  omega
+
+theorem hexLoopW_value (k : Nat) (c : List Nat) : ∀ (ds : List Nat) (off num : Nat),
+    (∀ i, i < ds.length → c[off + i]? = ds[i]?) → (∀ d ∈ ds, (hexVal? d).isSome) →
+    (num + 1) * 16 ^ ds.length ≤ 2 ^ k →
+    hexLoopW (2 ^ k) c ds.length off num = some (hexValue ds num, off + ds.length) := by
+  intro ds
+  induction ds with
+  | nil => intro off num _ _ _; simp [hexLoopW, hexValue]
+  | cons d t ih =>
+    intro off num h hd hb
+    have h0 : c[off]? = some d := by simpa using h 0 (by simp)
+    obtain ⟨v, hv⟩ := Option.isSome_iff_exists.1 (hd d (by simp))
+    have lv := hexVal?_lt hv
+    have hb' : (num + 1) * (16 * 16 ^ t.length) ≤ 2 ^ k := by simpa [Nat.pow_succ, Nat.mul_comm] using hb
+    have hpos : 0 < 16 ^ t.length := Nat.pow_pos (by omega)
+    have hlt : num * 16 < 2 ^ k := by
+      have : num * 16 < (num + 1) * (16 * 16 ^ t.length) := by
+        calc num * 16 < (num + 1) * 16 := by omega
+          _ ≤ (num + 1) * (16 * 16 ^ t.length) := Nat.mul_le_mul_left _ (Nat.le_mul_of_pos_right _ hpos)
+      omega
+    simp only [List.length_cons, hexLoopW, h0, hv, hexValue, Option.getD_some]
+    rw [hexStepW k num v hlt lv]
+    rw [ih (off + 1) (num * 16 + v) (by
+        intro i hi
+        have := h (i + 1) (by simp; omega)
+        simpa [Nat.add_assoc, Nat.add_comm 1] using this) (fun x hx => hd x (by simp [hx])) (by
+        calc (num * 16 + v + 1) * 16 ^ t.length ≤ ((num + 1) * 16) * 16 ^ t.length := Nat.mul_le_mul_right _ (by omega)
+          _ = (num + 1) * (16 * 16 ^ t.length) := by rw [Nat.mul_assoc]
+          _ ≤ 2 ^ k := hb')]
+    simp [Nat.add_assoc, Nat.add_comm 1]
+
 end Qentem.Unicode
